@@ -68,6 +68,11 @@ type Scenario struct {
 	StepDown string `json:"stepdown"`
 	// "stepdown": the crash plan fires in the ready cycle in which the crash node stops being leader
 	CrashWhen string `json:"crashwhen"`
+	// membership of the group changes: only the first Initial nodes bootstrap the group (0 = all), the others
+	// join later.  Conf = "lagging": a follower is away while nodes 4.. join and the others compact their logs,
+	// catches up through a snapshot, snapshots locally, dies and restarts
+	Initial int    `json:"initial"`
+	Conf    string `json:"conf"`
 }
 
 type event map[string]interface{}
@@ -132,6 +137,7 @@ type world struct {
 	holdApp    int32 // appends to this node are delayed (not lost) while it is isolated
 	holdNext   int32
 	holdTurn   int32
+	pid        uuid.UUID
 	hbBlock    int32 // heartbeats to this node are lost until a delayed append or a vote request got through
 }
 
@@ -193,6 +199,15 @@ func (s *shim) Receive(ctx context.Context, req *pb.RaftMessage) (*pb.EmptyMessa
 	return tr.Receive(ctx, req)
 }
 
+func nodeList(ids []uint64) []int {
+	out := []int{}
+	for _, i := range ids {
+		out = append(out, int(i))
+	}
+	sort.Ints(out)
+	return out
+}
+
 func digest(b []byte) string {
 	h := sha1.Sum(b)
 	return fmt.Sprintf("%x", h[:4])
@@ -209,6 +224,14 @@ func ents(es []raftpb.Entry) [][]interface{} {
 // decode renders the change an entry carries as [kind, id, val]
 func decode(e *raftpb.Entry) []interface{} {
 	if e.Type != raftpb.EntryNormal {
+		var cc raftpb.ConfChange
+		if err := cc.Unmarshal(e.Data); err == nil {
+			k := 1
+			if cc.Type == raftpb.ConfChangeRemoveNode {
+				k = 2
+			}
+			return []interface{}{"conf", int(cc.NodeID), k}
+		}
 		return []interface{}{"conf", 0, 0}
 	}
 	if len(e.Data) == 0 {
@@ -265,7 +288,8 @@ func (w *world) installHooks() {
 			mode = "start"
 		}
 		emit(event{"ev": "start", "node": int(id), "mode": mode, "first": int(fi), "last": int(li), "hsterm": int(hs.Term),
-			"hsvote": int(hs.Vote), "hscommit": int(hs.Commit), "snapidx": int(sn.Metadata.Index), "peers": len(nodeIds)})
+			"hsvote": int(hs.Vote), "hscommit": int(hs.Commit), "snapidx": int(sn.Metadata.Index), "peers": len(nodeIds),
+			"snapnodes": nodeList(sn.Metadata.ConfState.Nodes)})
 	}
 	raft.VerifHook = func(g *raft.RaftGroup, point string, rd *etcdRaft.Ready, entry *raftpb.Entry, err error) {
 		n := w.nodeById(g.VerifNodeId())
@@ -322,7 +346,9 @@ func (w *world) installHooks() {
 			if err != nil {
 				es = err.Error()
 			}
-			emit(event{"ev": "snapshot", "node": n.idx, "err": es})
+			// what the local snapshot says about the group's membership (read back from the node's store)
+			sn, _ := wal.NewBadgerWAL(n.db, w.pid).Snapshot()
+			emit(event{"ev": "snapshot", "node": n.idx, "err": es, "snapidx": int(sn.Metadata.Index), "snapnodes": nodeList(sn.Metadata.ConfState.Nodes)})
 		}
 		// crash plan
 		due := int(atomic.LoadInt32(&n.cycles)) >= w.sc.CrashCycle
@@ -444,6 +470,7 @@ func main() {
 	w := &world{sc: sc, rng: rand.New(rand.NewSource(sc.Seed)), crashed: make(chan *node, 4)}
 	var pid uuid.UUID
 	pid[0], pid[15] = 0x20, 1
+	w.pid = pid
 	ids := []uint64{}
 	for i := 1; i <= sc.N; i++ {
 		ids = append(ids, uint64(i))
@@ -467,8 +494,12 @@ func main() {
 		go n.srv.Serve(lis)
 		w.nodes = append(w.nodes, n)
 	}
-	for _, n := range w.nodes {
-		if err := w.boot(n, ids); err != nil {
+	initial := ids
+	if sc.Initial > 0 && sc.Initial < sc.N {
+		initial = ids[:sc.Initial]
+	}
+	for _, n := range w.nodes[:len(initial)] {
+		if err := w.boot(n, initial); err != nil {
 			panic(err)
 		}
 	}
@@ -601,6 +632,100 @@ func main() {
 						}()
 					}
 				}
+			}
+		}
+	}
+	if sc.Conf == "lagging" {
+		client(3)
+		appliedOf := func(n *node) uint64 {
+			if g := w.raftOf(n); g != nil {
+				return g.VerifNode().Status().Applied
+			}
+			return 0
+		}
+		snap := func(n *node) {
+			if g := w.raftOf(n); g != nil {
+				done := make(chan struct{})
+				go func() { g.VerifRequestSnapshot(0); close(done) }()
+				select {
+				case <-done:
+				case <-time.After(300 * time.Millisecond):
+				}
+			}
+		}
+		if l := w.waitLeader(3 * time.Second); l != nil {
+			var away *node
+			for _, n := range w.nodes[:len(initial)] {
+				if n != l {
+					away = n
+				}
+			}
+			emit(event{"ev": "isolate", "node": away.idx})
+			atomic.StoreInt32(&w.part, int32(away.idx))
+			// the other nodes join one by one, the way partition.addNode does: loadRaft(nil) on the new node,
+			// a membership change proposed by the leader
+			for _, n := range w.nodes[len(initial):] {
+				if err := w.boot(n, nil); err != nil {
+					emit(event{"ev": "fatal", "node": n.idx, "msg": "join boot failed: " + err.Error()})
+					continue
+				}
+				for try := 0; try < 50; try++ {
+					if ld := w.waitLeader(2 * time.Second); ld != nil {
+						if g := w.raftOf(ld); g != nil {
+							go g.ProposeJoin(n.id, "")
+						}
+					}
+					joined := false
+					for i := 0; i < 100 && !joined; i++ {
+						time.Sleep(2 * time.Millisecond)
+						if ld := w.leader(); ld != nil {
+							if g := w.raftOf(ld); g != nil {
+								_, joined = g.VerifNode().Status().Progress[n.id]
+							}
+						}
+					}
+					if joined {
+						emit(event{"ev": "joined", "node": n.idx})
+						break
+					}
+				}
+				client(1)
+			}
+			client(2)
+			for _, n := range w.nodes {
+				if n != away {
+					snap(n)
+				}
+			}
+			client(2)
+			atomic.StoreInt32(&w.part, 0)
+			emit(event{"ev": "heal", "node": away.idx})
+			for dl := time.Now().Add(5 * time.Second); time.Now().Before(dl); {
+				if ld := w.leader(); ld != nil && appliedOf(away) >= appliedOf(ld) && appliedOf(ld) > 0 {
+					break
+				}
+				time.Sleep(5 * time.Millisecond)
+			}
+			client(3)
+			snap(away)
+			client(1)
+			// the node dies while idle and restarts from what it stored
+			away.mu.Lock()
+			away.up = false
+			ds := away.ds
+			away.ds, away.tr = nil, nil
+			away.mu.Unlock()
+			emit(event{"ev": "crash", "node": away.idx, "point": "idle", "cycle": 0})
+			if ds != nil {
+				if g := ds.VerifRaft(0); g != nil {
+					g.Stop()
+					g.VerifForget()
+				}
+			}
+			client(1)
+			emit(event{"ev": "restart", "node": away.idx, "peers": len(ids)})
+			if err := w.boot(away, ids); err != nil {
+				emit(event{"ev": "fatal", "node": away.idx, "msg": "restart failed: " + err.Error()})
 			}
 		}
 	}
